@@ -49,20 +49,32 @@ fn write_block<W: Write>(w: &mut W, evs: &[Value]) {
     }
 }
 
-/// injective map abstract types -> concrete types, dynamic ids -> real dynamic ids
-fn variant(rng: &mut StdRng, nt: usize, nd: usize, identity: bool) -> (Vec<usize>, Vec<u64>) {
+/// Dynamic ids the abstract ids are mapped to: values that alias under truncation to 32 bits,
+/// under `% 64`, in their low or high halves ... (the model keeps its small abstract ids).
+const NASTY_DYN: [u64; 13] =
+    [1, 64, 65, 128, 256, 1 << 16, (1 << 16) | 1, 1 << 32, (1 << 32) | 1, (2 << 32) | 1, u32::MAX as u64, u64::MAX, 1 << 63];
+
+/// injective map abstract types -> concrete types, dynamic ids -> real dynamic ids.
+/// `no_default`: abstract types (1-based) that occur as Read / Write members of a shape; they
+/// cannot be mapped to `Box<dyn Resource>` (concrete type 4, no `Default`).
+fn variant(rng: &mut StdRng, nt: usize, nd: usize, identity: bool, no_default: &[u32]) -> (Vec<usize>, Vec<u64>) {
     let mut tys: Vec<usize> = (0..NCONC).collect();
     if !identity {
         tys.shuffle(rng);
     }
+    for &t in no_default {
+        let k = t as usize - 1;
+        if k < nt && tys[k] == 4 {
+            // swap with a concrete type that is not used by this variant (there are NCONC > nt of them)
+            // or with a type whose abstract partner may be the box
+            let j = (0..NCONC).find(|&j| (j >= nt || !no_default.contains(&(j as u32 + 1))) && tys[j] != 4).expect("a free concrete type");
+            tys.swap(k, j);
+        }
+    }
     tys.truncate(nt);
     let mut dyns: Vec<u64> = vec![0];
     while dyns.len() < nd {
-        let d: u64 = if identity {
-            dyns.len() as u64
-        } else {
-            *[1u64, 2, 7, 1 << 32, u64::MAX, u64::MAX - 1].choose(rng).unwrap()
-        };
+        let d: u64 = if identity { dyns.len() as u64 } else { *NASTY_DYN.choose(rng).unwrap() };
         if !dyns.contains(&d) {
             dyns.push(d);
         }
@@ -112,7 +124,15 @@ fn replay(a: &Args) {
         let hist: Vec<Step> = serde_json::from_str(&inner).expect("history JSON");
         behaviours += 1;
         for v in 0..variants {
-            let (tys, dyns) = variant(&mut rng, nt, nd, v == 0);
+            let mut nodef: Vec<u32> = Vec::new();
+            for st in &hist {
+                for m in &st.call.shape {
+                    if (m.k == "read" || m.k == "write") && !nodef.contains(&m.t) {
+                        nodef.push(m.t);
+                    }
+                }
+            }
+            let (tys, dyns) = variant(&mut rng, nt, nd, v == 0 && behaviours % 2 == 0, &nodef);
             // execution context (the spec does not know it: outcomes must not depend on it):
             // every other run on a rayon pool worker; a third of the &self calls from a
             // destructor that runs while the thread unwinds
@@ -121,6 +141,7 @@ fn replay(a: &Args) {
             let run = || {
                 let mut urng = StdRng::seed_from_u64(useed);
                 let mut d = Driver::new(tys.clone(), dyns.clone());
+                d.seed_ctors(useed);
                 let mut evs = vec![json!({"ev":"reset","src":"replay","nbeh":behaviours,"variant":v,"tymap":tys,"xdyn":dyns.iter().map(|x| x.to_string()).collect::<Vec<_>>(),"pool":pool})];
                 let mut ok = true;
                 let mut bad = None;
@@ -203,9 +224,16 @@ fn replay(a: &Args) {
 const FETCH_OPS: [&str; 6] = ["fetch", "try_fetch", "fetch_mut", "try_fetch_mut", "try_fetch_by_id", "try_fetch_mut_by_id"];
 const KINDS: [&str; 4] = ["read", "write", "optread", "optwrite"];
 
-fn rand_shape(rng: &mut StdRng, nt: u32) -> Vec<ShapeM> {
+fn rand_shape(rng: &mut StdRng, d: &Driver) -> Vec<ShapeM> {
     let n = if rng.gen_bool(0.25) { 1 } else { 2 };
-    (0..n).map(|_| ShapeM { k: KINDS.choose(rng).unwrap().to_string(), t: rng.gen_range(1..=nt) }).collect()
+    (0..n)
+        .map(|_| {
+            let t = rng.gen_range(1..=d.ntypes());
+            // Box<dyn Resource> (no Default) only in the Option forms
+            let k = if d.ci(t) == 4 { KINDS[rng.gen_range(2..4)] } else { *KINDS.choose(rng).unwrap() };
+            ShapeM { k: k.to_string(), t }
+        })
+        .collect()
 }
 
 fn rand_call(rng: &mut StdRng, d: &Driver, mode: &mut u8) -> CallSpec {
@@ -223,7 +251,7 @@ fn rand_call(rng: &mut StdRng, d: &Driver, mode: &mut u8) -> CallSpec {
         if rng.gen_bool(0.12) {
             *mode = 1;
         }
-        let sh = rand_shape(rng, nt);
+        let sh = rand_shape(rng, d);
         return match rng.gen_range(0..100) {
             0..=17 => mk("insert", ty, ty, 0, p, vec![], vec![]),
             18..=37 => mk("insert_by_id", targ, ty, dy, p, vec![], vec![]),
@@ -271,7 +299,7 @@ fn rand_call(rng: &mut StdRng, d: &Driver, mode: &mut u8) -> CallSpec {
         }
         70..=74 => mk("has_value", ty, ty, 0, 0, vec![], vec![]),
         75..=79 => mk("has_value_raw", ty, ty, dy, 0, vec![], vec![]),
-        80..=91 => mk("system_data", 0, 0, 0, 0, vec![], rand_shape(rng, nt)),
+        80..=91 => mk("system_data", 0, 0, 0, 0, vec![], rand_shape(rng, d)),
         92..=95 => mk("meta_iter", 0, 0, 0, 0, vec![], (1..=nt).map(|t| ShapeM { k: "optread".into(), t }).collect()),
         _ => mk("meta_iter_mut", 0, 0, 0, 0, vec![], (1..=nt).map(|t| ShapeM { k: "optwrite".into(), t }).collect()),
     }
@@ -292,12 +320,13 @@ fn random(a: &Args) {
     let contexts = !a.flag("plain");
     let mut samples = Vec::new();
     for b in 0..blocks {
-        let (tys, dyns) = variant(&mut rng, nt, nd, b == 0);
+        let (tys, dyns) = variant(&mut rng, nt, nd, b == 0, &[]);
         let pool = contexts && b % 2 == 1;
         let bseed: u64 = rng.gen();
         let run = || {
             let mut rng = StdRng::seed_from_u64(bseed);
             let mut d = Driver::new(tys.clone(), dyns.clone());
+            d.seed_ctors(bseed);
             let mut evs = vec![json!({"ev":"reset","src":"random","nblock":b,"tymap":tys,"xdyn":dyns.iter().map(|x| x.to_string()).collect::<Vec<_>>(),"pool":pool})];
             let mut mode = 0u8;
             for _ in 0..len {
@@ -372,7 +401,7 @@ fn threads(a: &Args) {
     let mut thread_counts = Vec::new();
     let mut samples = Vec::new();
     for b in 0..blocks {
-        let (tys, dyns) = variant(&mut rng, nt, nd, b == 0);
+        let (tys, dyns) = variant(&mut rng, nt, nd, b == 0, &[]);
         let mut d = Driver::new(tys.clone(), dyns.clone());
         let mut evs = vec![json!({"ev":"reset","src":"threads","nblock":b,"tymap":tys,"xdyn":dyns.iter().map(|x| x.to_string()).collect::<Vec<_>>()})];
         // populate (single-threaded, fully observed); one id stays absent so that None occurs
@@ -399,9 +428,10 @@ fn threads(a: &Args) {
             let log = Log(Mutex::new(vec![json!({"ev":"par","threads":k})]));
             let world = d.w();
             let seeds: Vec<u64> = (0..k).map(|_| rng.gen()).collect();
+            // ids through seed-chosen constructors (new / from_type_id ...): they all denote the same cells
+            let rids: Vec<Vec<shred::ResourceId>> = (1..=nt as u32).map(|ty| (0..nd as u32).map(|dy| d.rid_any(ty, dy)).collect()).collect();
             let dref = &d;
             let start = std::sync::Barrier::new(k);
-            let rids: Vec<Vec<shred::ResourceId>> = (1..=nt as u32).map(|ty| (0..nd as u32).map(|dy| dref.rid(ty, dy)).collect()).collect();
             let cis: Vec<usize> = (1..=nt as u32).map(|ty| dref.ci(ty)).collect();
             // every other block runs its "threads" as tasks on the workers of a rayon pool
             let on_rayon = cfg!(feature = "parallel") && b % 2 == 1;
@@ -724,7 +754,7 @@ impl StormThread<'_> {
 fn storm_block(rng: &mut StdRng, b: usize, viol: usize, keep: usize) -> (Vec<Value>, Value) {
     use std::sync::atomic::{AtomicBool, AtomicU64, AtomicUsize};
     let (nt, nd) = (2usize, 2usize);
-    let (tys, dyns) = variant(rng, nt, nd, false);
+    let (tys, dyns) = variant(rng, nt, nd, false, &[]);
     let mut d = Driver::new(tys.clone(), dyns.clone());
     let mut evs = vec![json!({"ev":"reset","src":"storm","nblock":b,"tymap":tys,"xdyn":dyns.iter().map(|x| x.to_string()).collect::<Vec<_>>()})];
     for ty in 1..=nt as u32 {
@@ -739,7 +769,7 @@ fn storm_block(rng: &mut StdRng, b: usize, viol: usize, keep: usize) -> (Vec<Val
     let nby = rng.gen_range(3..=4usize);
     let on_rayon = cfg!(feature = "parallel") && rng.gen_bool(0.5);
     let ctl = StormCtl { seq: AtomicU64::new(0), done: AtomicBool::new(false), anomalies: AtomicUsize::new(0) };
-    let rids: Vec<Vec<shred::ResourceId>> = (1..=nt as u32).map(|ty| (0..nd as u32).map(|dy| d.rid(ty, dy)).collect()).collect();
+    let rids: Vec<Vec<shred::ResourceId>> = (1..=nt as u32).map(|ty| (0..nd as u32).map(|dy| d.rid_any(ty, dy)).collect()).collect();
     let cis: Vec<usize> = (1..=nt as u32).map(|ty| d.ci(ty)).collect();
     let world = d.w();
     let k = nviol + nby;
